@@ -245,7 +245,8 @@ pub fn generate(r: &mut Prng, seed: u64, run: u64) -> Scenario {
     cfg.std_roots = true;
     // over-long names (a rename beyond byte 255) only on a share of the runs; the round-trip clause skips those
     cfg.names = if r.chance(1, 6) { 3 } else { cfg.names.min(2) };
-    cfg.rec_no_terms = false; // text cannot carry them; keep all transports usable
+    // records without terms: the text files cannot carry them (the Text projection drops them on that side)
+    cfg.rec_no_terms = r.chance(1, 3);
     cfg.n_terms = cfg.n_terms.min(48);
     cfg.fat_record = r.chance(1, 6);
     if cfg.fat_record {
